@@ -20,7 +20,7 @@ RULE = ("cadzow: full rectangular site grids 1-4 columns x 4-40 rows in shuffled
         "Non-trivial: grid with >= 2 columns / >= 2 spikes per bin somewhere / >= 2 labels with fold > 1; distinct = distinct (function, shape, "
         "parameters) signature")
 ASSUMPTIONS = ["spike times are sorted (as produced by spike sorters)", "floating point tolerances: identities 1e-10 relative, polynomial reproduction rtol 1e-6"]
-REQUIRED = {"smooth_integer_constants": 20, "cadzow_np1_identity": 6, "cadzow_identity": 10, "cadzow_planewave": 10, "svd_identity": 10, "smooth_constants": 30, "savgol_polynomials": 30, "savgol_nan": 10,
+REQUIRED = {"smooth_integer_constants": 20, "cadzow_np1_identity": 6, "cadzow_identity": 10, "cadzow_planewave": 10, "svd_identity": 10, "svd_offset_identity": 10, "smooth_constants": 30, "savgol_polynomials": 30, "savgol_nan": 10,
             "venn_conservation": 20, "stack_checked": 10}
 CASE_TIMEOUT = 200.0
 
@@ -148,6 +148,27 @@ def run_case(case):
                     res.check(e1 < e0, "svd:noise-not-reduced", f"{label}: rank-2 denoising: error {e1:.3f} >= noise {e0:.3f}")
                 out = V.svd_denoise_npx(A.copy(), rank=2)
                 res.check(np.max(np.abs(out - A)) / np.max(np.abs(A)) <= 1e-10, "svd:rank2-identity", f"{label}: rank-2 data changed at rank 2")
+                # channels with their own baseline: rank-2 activity + one offset per channel has rank <= 3, so rank 3 (and anything above)
+                # returns it unchanged - offsets are data like everything else (round 19)
+                off = rng.uniform(2, 20, nc) * rng.choice([-1, 1], nc)
+                B = A + off[:, None]
+                for rk in (3, min(nc, 5)):
+                    if rk < 3:
+                        continue
+                    out = V.svd_denoise_npx(B.copy(), rank=rk)
+                    err = np.max(np.abs(out - B)) / np.max(np.abs(B))
+                    res.check(out.shape == B.shape and err <= 1e-9, "svd:offset-data-identity", f"{label}: rank-2 activity + per-channel offsets (rank 3) changed by {err:.3g} at rank {rk}", counter="svd_offset_identity")
+                msz = int(np.min(np.unique(coll, return_counts=True)[1]))
+                if msz >= 4:
+                    # the library gives each collection int(rank * size / nc) components: ask for enough that every group gets >= 3
+                    rk = min(nc, int(np.ceil(3 * nc / msz)) + 1)
+                    out = V.svd_denoise_npx(B.copy(), rank=rk, collection=coll)
+                    err = np.max(np.abs(out - B)) / np.max(np.abs(B))
+                    res.check(err <= 1e-9, "svd:offset-data-identity-collections", f"{label}: rank-3 data with offsets changed by {err:.3g} at rank {rk} (>= 3 per collection, smallest of {msz} channels)")
+                if nc >= 8:
+                    out = V.svd_denoise_npx(B + noise, rank=3)
+                    e1 = np.linalg.norm(out - B)
+                    res.check(e1 < e0, "svd:noise-not-reduced:offsets", f"{label}: rank-3 denoising of offset data: error {e1:.3f} >= noise {e0:.3f}")
                 sigs.add(("svd", nc))
             except Exception as e:
                 res.exception("svd:exception", e, label)
